@@ -1,6 +1,7 @@
 CONSTANTS
-  MaxToks = 2
+  MaxToks = 3
   Big = FALSE
   NRand = 4000
+  Part = "all"
 INIT GenInit
 NEXT GenNext
